@@ -489,7 +489,14 @@ func projectionsOf(human, impl, model string) []string {
 			ps = append(ps, "annot")
 		}
 		return ps
-	case "run", "vmrun":
+	case "run", "vmrun", "pipeline":
+		if kind == "pipeline" && (a[0] == "err" || b[0] == "err") {
+			// the whole facade from source text: a compile-time verdict differs
+			if a[0] != b[0] {
+				return []string{"accept"}
+			}
+			return []string{"errclass"}
+		}
 		if a[0] != b[0] {
 			return []string{"class"}
 		}
